@@ -6,8 +6,10 @@ Model: `Pyn.getSlice` (`_Base._get_slice`, all four modes, Python negative-index
 included), over the `np.searchsorted` specification functions `ssLeft` / `ssRight`.
 
 Proved: `get(start, end)` (mode `restrict`) returns exactly the samples with
-`start ≤ t ≤ end`, duplicates at either edge included.  The nearest-sample form, the other three
-modes and the trial-tensor / trial_count / warp layout are decided by oracle + correspondence.
+`start ≤ t ≤ end`, duplicates at either edge included (`get_window`); `get(start)` (mode `closest_t`, no end)
+returns a sample nearest to `start`, for any non-empty sorted series and any `start` before, inside or after the
+data, Python's wrap-around read `t[-1]` included (`get_nearest`).  The modes `before_t` / `after_t` and the
+trial-tensor / trial_count / warp layout are decided by oracle + correspondence.
 -/
 namespace Pyn.C08
 open Pyn
@@ -38,6 +40,102 @@ theorem get_rejects_inverted (t : Array Int) (s e : Int) (hse : e < s) :
   split
   · rename_i h; simp [throw, throwThe, MonadExceptOf.throw] at h; rw [h]
   · rename_i h; simp [throw, throwThe, MonadExceptOf.throw] at h
+
+/-! ## x.get(start): the nearest sample -/
+
+theorem pyGet_nat (t : Array Int) (k : Nat) (hk : k < t.size) : pyGet t (k : Int) = .ok t[k] := by
+  unfold pyGet
+  have h1 : (0 : Int) ≤ (k : Int) ∧ (k : Int) < (t.size : Int) := ⟨Int.natCast_nonneg _, by omega⟩
+  simp [h1, hk]
+
+theorem pyGet_neg1 (t : Array Int) (hn : 0 < t.size) : pyGet t (-1) = .ok (t[t.size - 1]'(by omega)) := by
+  unfold pyGet
+  have h1 : ¬ ((0 : Int) ≤ -1 ∧ (-1 : Int) < (t.size : Int)) := by omega
+  have h2 : -(t.size : Int) ≤ -1 ∧ (-1 : Int) < 0 := by omega
+  have e : ((-1 : Int) + (t.size : Int)).toNat = t.size - 1 := by omega
+  simp [h1, h2, e, show t.size - 1 < t.size by omega]
+
+/-- **x.get(start) returns a sample nearest to `start`** (mode `closest_t`, no `end`): for non-decreasing timestamps
+of any positive length, the slice is `(i, i+1)` for a valid position `i` whose timestamp is at least as close to
+`start` as every other timestamp (ties go to the later sample) -/
+theorem get_nearest (t : Array Int) (hs : Sorted t) (hn : 0 < t.size) (s : Int) :
+    ∃ i : Nat, ∃ hi : i < t.size, getSlice t 2 s none = .ok ((i : Int), (i : Int) + 1) ∧
+      ∀ k, (hk : k < t.size) → (t[i] - s).natAbs ≤ (t[k] - s).natAbs := by
+  have hb := ssLeft_bounds t s 0 (Nat.zero_le _)
+  obtain ⟨sp1, sp2⟩ := ssLeft_spec t s 0 hs
+  rcases Nat.lt_or_ge (ssLeft t s 0) t.size with hlt | hge
+  · rcases Nat.eq_zero_or_pos (ssLeft t s 0) with h0 | hpos
+    · -- every timestamp is ≥ start: the first one is nearest
+      refine ⟨0, hn, ?_, ?_⟩
+      · unfold getSlice
+        have hne : ¬ ((0 : Int) = (t.size : Int)) := by omega
+        have p0 : pyGet t 0 = .ok t[0] := by simpa using pyGet_nat t 0 hn
+        have h1 := sp2 0 (by omega) hn
+        have h2 := sp2 (t.size - 1) (by omega) (by omega)
+        have h3 := hs 0 (t.size - 1) hn (by omega) (by omega)
+        have hc : ¬ (((t[t.size - 1]'(by omega) - s).natAbs : Int) < t[0] - s) := by omega
+        simp [h0, hne, p0, pyGet_neg1 t hn, bind, Except.bind, pure, Except.pure, b2i, hc]
+      · intro k hk
+        have h1 := sp2 0 (by omega) hn
+        have h2 := sp2 k (by omega) hk
+        have h3 := hs 0 k hn hk (by omega)
+        omega
+    · -- start lies strictly between two samples (or on the later one): the closer of the two neighbours
+      have hj : ssLeft t s 0 - 1 < t.size := by omega
+      have pj : pyGet t ((ssLeft t s 0 : Nat) : Int) = .ok t[ssLeft t s 0] := pyGet_nat t _ hlt
+      have pj1 : pyGet t (((ssLeft t s 0 : Nat) : Int) - 1) = .ok (t[ssLeft t s 0 - 1]'hj) := by
+        have e : ((ssLeft t s 0 : Nat) : Int) - 1 = ((ssLeft t s 0 - 1 : Nat) : Int) := by omega
+        rw [e]; exact pyGet_nat t _ hj
+      have hne : ¬ (((ssLeft t s 0 : Nat) : Int) = (t.size : Int)) := by omega
+      have hlo := sp1 (ssLeft t s 0 - 1) (by omega) (by omega) hj
+      have hhi := sp2 (ssLeft t s 0) (Nat.le_refl _) hlt
+      by_cases hc : ((t[ssLeft t s 0 - 1]'hj - s).natAbs : Int) < t[ssLeft t s 0] - s
+      · refine ⟨ssLeft t s 0 - 1, hj, ?_, ?_⟩
+        · unfold getSlice
+          have e : ((ssLeft t s 0 - 1 : Nat) : Int) = ((ssLeft t s 0 : Nat) : Int) - 1 := by omega
+          have hnn : ¬ (((ssLeft t s 0 : Nat) : Int) - 1 < 0) := by omega
+          simp [hne, pj, pj1, bind, Except.bind, pure, Except.pure, b2i, hc, e, hnn]
+        · intro k hk
+          rcases Nat.lt_or_ge k (ssLeft t s 0) with h | h
+          · have := hs k (ssLeft t s 0 - 1) hk hj (by omega)
+            omega
+          · have := hs (ssLeft t s 0) k hlt hk h
+            omega
+      · refine ⟨ssLeft t s 0, hlt, ?_, ?_⟩
+        · unfold getSlice
+          have hnn : ¬ (((ssLeft t s 0 : Nat) : Int) < 0) := by omega
+          simp [hne, pj, pj1, bind, Except.bind, pure, Except.pure, b2i, hc, hnn]
+        · intro k hk
+          rcases Nat.lt_or_ge k (ssLeft t s 0) with h | h
+          · have := hs k (ssLeft t s 0 - 1) hk hj (by omega)
+            omega
+          · have := hs (ssLeft t s 0) k hlt hk h
+            omega
+  · -- every timestamp is before start: the last one is nearest
+    have hsz : ssLeft t s 0 = t.size := by omega
+    have hl : t.size - 1 < t.size := by omega
+    have hlast := sp1 (t.size - 1) (by omega) (by omega) hl
+    refine ⟨t.size - 1, hl, ?_, ?_⟩
+    · unfold getSlice
+      have e : ((t.size - 1 : Nat) : Int) = (t.size : Int) - 1 := by omega
+      have pl : pyGet t ((t.size : Int) - 1) = .ok (t[t.size - 1]'hl) := by rw [← e]; exact pyGet_nat t _ hl
+      have hnn : ¬ ((t.size : Int) - 1 < 0) := by omega
+      rcases Nat.lt_or_ge 1 t.size with h2 | h2
+      · have hl2 : t.size - 2 < t.size := by omega
+        have e2 : (t.size : Int) - 1 - 1 = ((t.size - 2 : Nat) : Int) := by omega
+        have pl2 : pyGet t ((t.size : Int) - 1 - 1) = .ok (t[t.size - 2]'hl2) := by rw [e2]; exact pyGet_nat t _ hl2
+        have hc : ¬ (((t[t.size - 2]'hl2 - s).natAbs : Int) < t[t.size - 1]'hl - s) := by omega
+        simp [hsz, pl, pl2, bind, Except.bind, pure, Except.pure, b2i, hc, e, hnn]
+      · have h1 : t.size = 1 := by omega
+        have e2 : (t.size : Int) - 1 - 1 = -1 := by omega
+        have pl2 : pyGet t ((t.size : Int) - 1 - 1) = .ok (t[t.size - 1]'hl) := by rw [e2]; exact pyGet_neg1 t hn
+        have hc : ¬ (((t[t.size - 1]'hl - s).natAbs : Int) < t[t.size - 1]'hl - s) := by omega
+        simp [hsz, pl, pl2, bind, Except.bind, pure, Except.pure, b2i, hc, e, hnn]
+    · intro k hk
+      have := hs k (t.size - 1) hk hl (by omega)
+      have := sp1 k (by omega) (by omega) hk
+      omega
+
 
 def okIs (r : Except SliceErr (Int × Int)) (a b : Int) : Bool :=
   match r with | .ok (x, y) => x == a && y == b | _ => false
